@@ -45,6 +45,22 @@ def d2Batch (γ α lamT tol : Rat) (d : D2) (sims : List Smp) : D2 :=
   let t := d2Sim γ α lamT tol sims ([], d.qT)
   { d with trT := t.1, qT := t.2 }
 
+/-- The simulated samples of `Dyna2::batchUpdateQ(initS)` with `N = n` on a deterministic generative model (`next`, `rew`) and a
+    deterministic internal policy `pol`; `term` is `model_.isTerminal`.  Control flow of the loop as written:
+    `(s1,rew) = sampleSR(s,a); a1 = sampleAction(s1); step; if isTerminal(s1) { s = initS; a = sampleAction(s); } else { s = s1; a = a1; }` -/
+def d2Chain (next : Nat → Nat → Nat) (rew : QF) (pol : Nat → Nat) (term : Nat → Bool) (s0 : Nat) : Nat → Nat → Nat → List Smp
+  | 0, _, _ => []
+  | n+1, s, a =>
+    let s1 := next s a
+    let a1 := pol s1
+    ⟨s, a, s1, a1, rew s a⟩ ::
+      (if term s1 then d2Chain next rew pol term s0 n s0 (pol s0) else d2Chain next rew pol term s0 n s1 a1)
+
+/-- `Dyna2::batchUpdateQ(s0)` on such a model -/
+def d2BatchDet (γ α lamT tol : Rat) (next : Nat → Nat → Nat) (rew : QF) (pol : Nat → Nat) (term : Nat → Bool) (N : Nat)
+    (d : D2) (s0 : Nat) : D2 :=
+  d2Batch γ α lamT tol d (d2Chain next rew pol term s0 N s0 (pol s0))
+
 /-- Dyna2::resetTransientLearning -/
 def d2Reset (d : D2) : D2 := { d with qT := d.qP }
 
